@@ -45,14 +45,14 @@ def plan(tier, seed):
     fams = list(families.FAMILY_NAMES)
     specs = []
     for fam in fams:
-        specs.append(dict(label=fam, family=fam, triples=24000 if q else 200000,
+        specs.append(dict(label=fam, family=fam, triples=24000 if q else 800000,
                           seed=seed, tier=tier, variant='mon',
-                          timeout=900 if q else 3000))
+                          timeout=900 if q else 7200))
     if not q:
         for fam in ['OO', 'II', 'fs']:
-            specs.append(dict(label=fam + '-asan', family=fam, triples=15000,
+            specs.append(dict(label=fam + '-asan', family=fam, triples=60000,
                               seed=seed + 5, tier=tier, variant='asan',
-                              timeout=3000))
+                              timeout=7200))
     return specs
 
 
